@@ -41,7 +41,7 @@ def list_harnesses():
         mod = f[:-3]
         for m in re.finditer(r"^\s*[a-z_]+_harness!\(\s*([a-z0-9_]+)\s*,", text, re.M):
             names.append((mod, m.group(1)))
-        for m in re.finditer(r"#\[kani::proof\][^{]*?fn\s+([a-z0-9_]+)\s*\(", text, re.S):
+        for m in re.finditer(r"kani::proof\)?\][^{]*?fn\s+([a-z0-9_]+)\s*\(", text, re.S):
             if "$" not in m.group(1):
                 names.append((mod, m.group(1)))
     return names
@@ -162,12 +162,20 @@ def parse(output, names):
     return results
 
 
-def run_kani(names, timeout_s, jobs=8, unwind=None, extra_cbmc=(), target="kani-target", harness_timeout=None):
+def run_kani(names, timeout_s, jobs=8, unwind=None, extra_cbmc=(), target="kani-target", harness_timeout=None, single_query=True):
+    """single_query: CBMC's --stop-on-fail (one SAT query for all properties of a harness instead of one per property,
+    4x faster on these harnesses); needs Kani's reachability checks and cover properties off (both are 'failing'
+    assertions by design).  With single_query=False the harness crate is built with feature `covers`."""
     os.makedirs(WORK, exist_ok=True)
     env = dict(os.environ)
     env["PATH"] = SHIM + ":" + env["PATH"]
     env["CARGO_NET_OFFLINE"] = "true"
     cmd = ["cargo", "kani"] + BASE_FLAGS
+    if single_query:
+        cmd += ["--no-assertion-reach-checks"]
+        extra_cbmc = list(extra_cbmc) + ["--stop-on-fail"]
+    else:
+        cmd += ["--features", "covers"]
     for n in names:
         cmd += ["--harness", n]
     cmd += ["--exact", "--target-dir", os.path.join(WORK, target)]
@@ -196,7 +204,7 @@ def run_kani(names, timeout_s, jobs=8, unwind=None, extra_cbmc=(), target="kani-
 TAG = re.compile(r"^(C\d\d)\b")
 
 
-def run_group(res, prop, prefixes, tier, expected_panics=(), jobs=8, timeout_s=None, also_tags=()):
+def run_group(res, prop, prefixes, tier, expected_panics=(), jobs=8, timeout_s=None, also_tags=(), single_query=True):
     """Runs every harness whose name starts with one of `prefixes` (quick: `<p>q_`, thorough: `<p>q_` and `<p>t_`).
     Fills `res` (violations are only *candidates* here: the caller replays them) and returns a coverage fragment."""
     pf = []
@@ -211,13 +219,15 @@ def run_group(res, prop, prefixes, tier, expected_panics=(), jobs=8, timeout_s=N
     if timeout_s is None:
         timeout_s = 1500 if tier == "quick" else 5400
     short = [n.split("::")[-1] for n in names]
-    out, wall, timed_out, log = run_kani(names, timeout_s, jobs=jobs, harness_timeout=timeout_s - 60)
+    out, wall, timed_out, log = run_kani(names, timeout_s, jobs=jobs, harness_timeout=timeout_s - 60, single_query=single_query)
     if "error: could not compile" in out or "Failed to execute cargo" in out or "error[E" in out:
         res.inconclusive.append("the harness crate does not compile against /repo's working tree (see %s): %s" % (
             log, " | ".join(re.findall(r"^error[^\n]*", out, re.M)[:3])))
         return {"harnesses": short, "log": log}
     results = parse(out, names)
-    frag = {"harnesses": [], "checks_discharged": 0, "covers_satisfied": 0, "kani_wall_s": round(wall, 1), "log": log}
+    frag = {"mode": "one SAT query per harness (--stop-on-fail, no reachability instrumentation)" if single_query else
+            "one SAT query per property, reachability witnesses (kani::cover) on",
+            "harnesses": [], "checks_discharged": 0, "covers_satisfied": 0, "kani_wall_s": round(wall, 1), "log": log}
     candidates = []
     for n in names:
         r = results[n]
